@@ -52,10 +52,9 @@ PROPS['C12'] = {
     'claim': 'Lean 4 proofs for all byte strings and all valid URIs: from_bytes accepts exactly the values satisfying an explicit '
              'representation invariant and keeps the text; accessors recompose; characters/segments are legal; == is an equivalence '
              'that hashes consistently; join and parent results re-parse to the identical value (same authority offsets); a non-empty '
-             'relative_to path joins back to the original. HTTPS: parse/recompose/equivalence/hash/join. Proved on the model; the '
-             'remaining laws of the statement (relative_to empty-path characterisation, parent-of irreflexive/transitive/congruent, '
-             'join beneath base, parent is a parent, Https::parent) are decided on the implementation by the Lean Spec oracle over the '
-             'exhaustive scope and are not yet theorems.',
+             'relative_to path joins back to the original. HTTPS: parse/recompose/equivalence/hash/join/parent. relative_to = some [] iff same module and paths equal up to one '
+             'trailing slash; parent-of is irreflexive, transitive and congruent for ==; join(base,p) is exactly p relative to base and '
+             'beneath it; a parent is a parent of its child. All laws of the statement are theorems on the model.',
     'note': 'Model is hand-written (List Nat bytes); tie = differential run over every rsync:// and https:// string over {a,A,/,.,%,space} '
             'up to length 6 (thorough 7), all pairs/joins/triples of accepted ones, random long URIs. The character class, the '
             'eq_module shape and the Https::join slash condition are regenerated from src/uri.rs on every run. serde wrappers not modelled.',
@@ -256,6 +255,18 @@ PROPS['C10'] = {
     'rule': 'library-made messages (create) validated at nb-1, nb, mid, na, na+1 under the issuing and under another key; 900 (thorough 6000) foreign messages: content 0-200 octets, 0-6 extra signed attributes (unknown OIDs with values of 1-300 octets, binary-signing-time; total attribute size 100-2000 octets incl. the 128/256 boundaries), AKI present/absent on EE and CRL, basicConstraints absent/false/true(+pathLen), key usage, 0-50 revoked serials; one tampering per case out of 25: time at the window ends, EE or CRL signed by a stranger, cA EE, EE/CRL window before/after t, EE serial first/middle/last in the CRL, wrong AKI on EE/CRL, sid bit, foreign signer, signature bit, signature over [0]-tagged or non-DER length bytes, wrong digest, SKI not the key hash, wrong content type, degenerate windows.',
     'trusted_base': ['aws-lc RSA verification and SHA-256/SHA-1', 'bcder and the CMS/X.509/CRL decoders for everything except what the facts record (validated differentially)'],
     'assumptions': ['a signature verifies under a key iff it was produced with the matching private key over exactly those bytes'],
+}
+
+PROPS['C09'] = {
+    'level': 'proof',
+    'technique': 'Lean 4 theorems on models of the XML read budget (BufReadCounter as a state machine: limit + one buffer, tight), sort_and_verify_deltas (never panics; true iff the retained serials are consecutive), has_matching_origins, attribute/text escaping and Base64 (round trips for all octet strings, white space ignored) and of the three RRDP writers (byte-exact) + differential check: written files re-parsed by the real parser and by a Lean reference reader, endless hostile streams through a counting reader',
+    'claim': 'Lean 4 proofs: after reset_and_limit(L), L>0, at most L + B octets are pulled before a read is refused for every fill/consume sequence respecting the BufRead contract (B = largest buffer offered), and the bound is attained; sort_and_verify_deltas never panics and answers true iff the newest `limit` sorted serials are consecutive; the origin check is true iff snapshot and all deltas share the authority (ASCII case-insensitively); escapeAttr/escapePcdata un-escape to the original for ALL octet strings, contain no raw quote/< and only well-formed entities; Base64 text decodes to exactly the object with white space anywhere, and only canonical text decodes. Writer models for notification/snapshot/delta files are byte-exact on every generated value. Partial: quick-xml (tokeniser, namespace resolution, its internal buffering, entity handling) is not modelled: file-level round trip through the real parser and the measured number of octets pulled from endless streams are established by the correspondence run, the latter against the proved bound p + L + B.',
+    'note': 'MAX_HEADER_SIZE / MAX_FILE_SIZE, the fill_buf/consume/reset shapes, the escape tables and the checked addition in the delta loop are re-read from the source on every run. A document-level theorem (reference reader inverts the generic element writer) is under way in Rpki/Proofs/XmlDocLemmas.lean and is not part of the claim until it is built.',
+    'shards': {'quick': 4, 'thorough': 16},
+    'budget': {'quick': 900, 'thorough': 7200},
+    'rule': 'escaping: every single octet and all pairs over {< > & quote apos ; # a x} in both modes + random strings; Base64: every length 0-39 encoded/decoded/with white space, random text over the alphabet and neighbours; 500 (thorough 4000) notification files (0-200 deltas, serials at 0 and 2^64-1, URIs with & and apostrophes) and as many snapshot/delta files (0-50 elements, objects of 0-4096 octets incl. all byte values) written, re-parsed by the library (equality) and by the Lean reference reader (well-formed, canonical); delta chains: every sequence of length <= 4 (thorough 5) over {0,1,2,3,2^64-2,2^64-1} x limits {none,0..6} + random shuffled runs with gaps and duplicates; origins over 6 hosts x 7 paths; endless streams: 16 kinds (attribute value/name, element name, white space in tag, leading white space/comment/doctype, white space/comment/text/entities/nested elements after the root start, inner attribute value/name, trailing white space/comment, publish text) x notification/snapshot/delta through a counting reader with 8 KiB buffers.',
+    'trusted_base': ['quick-xml 0.39 (tokeniser, trim_text, namespaces): not modelled, exercised by the correspondence', 'base64 crate: modelled by b64Encode/b64Decode, validated differentially', 'uuid Display: hyphenated lower-case hex (modelled in the driver)'],
+    'assumptions': ['the source reader honours the BufRead contract (consume <= last fill_buf)'],
 }
 
 NOT_APPLICABLE = {
